@@ -1,2 +1,5 @@
 pub mod hist;
 pub mod faults;
+pub mod hist2;
+pub mod hist3;
+pub mod c01;
